@@ -3,8 +3,6 @@
 package gsfa
 
 import (
-	"context"
-
 	"github.com/gagliardetto/solana-go"
 	"github.com/rpcpool/yellowstone-faithful/compactindexsized"
 	"github.com/rpcpool/yellowstone-faithful/gsfa/linkedlog"
@@ -71,7 +69,8 @@ func verifC07TxData(sig solana.Signature) []byte {
 
 // verifC07Build builds the world. maxEp/maxN bound the shape; every epoch has 0..maxN entries
 // (0 = address absent from that epoch), stored in one record or split into two linked records.
-// splitMode: 0 = one record or split in half, 1 = every split point, 2 = always one record.
+// splitMode: 0 = one record or split in half, 1 = every split point, 2 = always one record,
+// 3 = fixed mix (first and third epoch split in half, second epoch one record).
 func verifC07Build(minEp, maxEp, maxN int, splitMode int) *verifC07World {
 	w := &verifC07World{byOff: map[uint64]*verifC07Tx{}, byTx: map[*ipldbindcode.Transaction]*verifC07Tx{}}
 	verifC07Heads = map[*GsfaReader]*indexes.OffsetAndSize{}
@@ -107,6 +106,10 @@ func verifC07Build(minEp, maxEp, maxN int, splitMode int) *verifC07World {
 		if n >= 2 && splitMode != 2 {
 			if splitMode == 1 {
 				s = verifChoice("split", n)
+			} else if splitMode == 3 {
+				if k != 1 { // fixed mix: first and third epoch split in half, second in one record
+					s = n / 2
+				}
 			} else {
 				s = verifChoice("split", 2) * (n / 2)
 			}
@@ -125,6 +128,16 @@ func verifC07Build(minEp, maxEp, maxN int, splitMode int) *verifC07World {
 					return nil
 				},
 				linkedlog.KeyToOffsetAndSizeAndBlocktime{Key: verifC07Pk, Values: vals},
+			)
+			verifAssert(err == nil, "C07: LinkedLog.Put failed")
+		}
+		// another address's record may be stored first, so that this address's chain does not start at
+		// file offset 0 (param foreign: 0 = only in the second epoch, 1 = every combination)
+		if (verifParam("foreign", 0) == 1 && verifChoice("foreign_first", 2) == 1) || (verifParam("foreign", 0) == 0 && k == 1) {
+			_, err := ll.Put(
+				func(solana.PublicKey) (indexes.OffsetAndSize, error) { return indexes.OffsetAndSize{}, nil },
+				func(solana.PublicKey, uint64, uint32) error { return nil },
+				linkedlog.KeyToOffsetAndSizeAndBlocktime{Key: solana.PublicKey{1, 2, 3}, Values: []*linkedlog.OffsetAndSizeAndSlot{{Offset: 5000, Size: 9, Slot: 77}}},
 			)
 			verifAssert(err == nil, "C07: LinkedLog.Put failed")
 		}
@@ -168,104 +181,8 @@ func (w *verifC07World) flatten(m EpochToTransactionObjects, label string) []*ve
 	return got
 }
 
-// ---------------------------------------------------------------------------
-// C07.iter — GetBeforeUntil/iterBeforeUntil return exactly the reference slice of the history:
-// start just after `before` (or at the newest entry), end with `until` inclusive (or at the
-// oldest entry), cut to `limit`; epochs without the address are skipped.
-func VerifC07Iter() {
-	w := verifC07Build(1, verifParam("max_epochs", 3), verifParam("max_entries", 2), verifParam("all_splits", 0))
-	N := len(w.hist)
-
-	// before: absent, or the signature of history entry b (1..N); only byte 0 is symbolic
-	var before, until *solana.Signature
-	start := uint64(0) // index of the first entry of the reference run
-	if verifChoice("before", 2) == 1 {
-		b := verifU8("before_id")
-		verifAssume(b >= 1 && int(b) <= N)
-		s := verifC07Sig(0)
-		s[0] = b
-		s[63] = b ^ 0x5A
-		before = &s
-		start = uint64(b)
-	}
-	end := uint64(N) // exclusive end of the reference run before the limit cut
-	if verifChoice("until", 2) == 1 {
-		u := verifU8("until_id")
-		// until lies in the part of the history that follows `before`
-		verifAssume(u >= 1 && int(u) <= N && uint64(u) > start)
-		s := verifC07Sig(0)
-		s[0] = u
-		s[63] = u ^ 0x5A
-		until = &s
-		end = uint64(u)
-	}
-	limit := verifInt("limit")
-	verifAssume(limit >= -1 && limit <= N+1)
-
-	m, err := verifC07Multi(w.readers).GetBeforeUntil(context.Background(), verifC07Pk, limit, before, until, w.fetcher("C07.iter"))
-	verifAssert(err == nil, "C07.iter: GetBeforeUntil failed (an epoch without the address must be skipped)")
-	got := w.flatten(m, "C07.iter")
-
-	// reference (branch-free): count = min(limit, end-start), entries start+1, start+2, ...
-	avail := end - start
-	lim := verifIteU64(limit > 0, uint64(limit), 0)
-	want := verifIteU64(avail < lim, avail, lim)
-	verifAssert(uint64(len(got)) == want, "C07.iter: wrong number of entries (before/until/limit slice)")
-	for i, e := range got {
-		verifAssert(uint64(e.id) == start+uint64(i)+1, "C07.iter: entry is not the next one of the newest-first history after `before`")
-	}
-	verifReach("end")
-}
-
 func verifC07Multi(rs []*GsfaReader) *GsfaReaderMultiepoch {
 	m, err := NewGsfaReaderMultiepoch(rs)
 	verifAssert(err == nil, "C07: NewGsfaReaderMultiepoch failed")
 	return m
-}
-
-// ---------------------------------------------------------------------------
-// C07.single — the single-epoch reader (*GsfaReader).GetBeforeUntil (gsfa-read.go, same paging
-// contract on one epoch's list; it returns locations instead of transactions).
-func VerifC07Single() {
-	w := verifC07Build(1, 1, verifParam("max_entries", 4), 1)
-	N := len(w.hist)
-	verifAssume(N >= 1) // an address that is not indexed is reported as an error by this reader
-	var before, until *solana.Signature
-	start := uint64(0)
-	if verifChoice("before", 2) == 1 {
-		b := verifU8("before_id")
-		verifAssume(b >= 1 && int(b) <= N)
-		s := verifC07Sig(0)
-		s[0] = b
-		s[63] = b ^ 0x5A
-		before = &s
-		start = uint64(b)
-	}
-	end := uint64(N)
-	if verifChoice("until", 2) == 1 {
-		u := verifU8("until_id")
-		verifAssume(u >= 1 && int(u) <= N && uint64(u) > start)
-		s := verifC07Sig(0)
-		s[0] = u
-		s[63] = u ^ 0x5A
-		until = &s
-		end = uint64(u)
-	}
-	limit := verifInt("limit")
-	verifAssume(limit >= -1 && limit <= N+1)
-	locs, err := w.readers[0].GetBeforeUntil(context.Background(), verifC07Pk, limit, before, until,
-		func(loc linkedlog.OffsetAndSizeAndSlot) (solana.Signature, error) {
-			e := w.byOff[loc.Offset]
-			verifAssert(e != nil, "C07.single: fetcher called with a location that was never indexed")
-			return verifC07Sig(e.id), nil
-		})
-	verifAssert(err == nil, "C07.single: GetBeforeUntil failed")
-	avail := end - start
-	lim := verifIteU64(limit > 0, uint64(limit), 0)
-	want := verifIteU64(avail < lim, avail, lim)
-	verifAssert(uint64(len(locs)) == want, "C07.single: wrong number of entries (before/until/limit slice)")
-	for i, loc := range locs {
-		verifAssert(loc.Offset == 100+start+uint64(i)+1, "C07.single: entry is not the next one of the newest-first history after `before`")
-	}
-	verifReach("end")
 }
